@@ -377,12 +377,19 @@ impl<'a, 't> Printer<'a, 't> {
             ConstantKind::RealLiteral(r) => self.real_literal(r),
             ConstantKind::Boolean(b) => {
                 let word = if b.value == Boolean::True { "TRUE" } else { "FALSE" };
+                let mut digit = false;
                 if self.t.ratio(1, 5) {
                     self.o.tykw("BOOL");
                     self.o.glue().p_tight("#");
                     self.o.glue();
+                    // (behind the type name the value may be written 1 / 0: still the Boolean literal)
+                    digit = self.t.flag() && self.g.want("BOOL_HASH_DIGIT");
                 }
-                self.o.kw(word);
+                if digit {
+                    self.o.num(if b.value == Boolean::True { "1" } else { "0" });
+                } else {
+                    self.o.kw(word);
+                }
                 self.g.hit("lit.bool");
             }
             ConstantKind::CharacterString(s) => {
